@@ -329,9 +329,10 @@ theorem C05_toMarrow_ok_exact (ext : Ext) (fields : List Field) (rows : List SVa
   exact ⟨_, h4 i hi⟩
 
 /-- **undefined ⇒ rejected (`to_marrow`).**  One record without a documented value anywhere in the batch makes the
-whole call fail: no array is returned.  Needs only the hypotheses of R3' (`Props.C01.runRows_interp'`; no `Safe`). -/
+whole call fail: no array is returned.  Needs only the hypotheses of R3' (`Props.C01.runRows_interp'`; no `Safe`); the
+schema predicate is the weak `coveredWF` (Lemmas/C01NewShape.lean): also dictionaries whose value builder refuses strings. -/
 theorem C05_toMarrow_undefined_rejected (ext : Ext) (fields : List Field) (rows : List SVal)
-    (hcov : fields.all Build.coveredF = true)
+    (hcov : fields.all Build.coveredWF = true)
     (hraw : ∀ x ∈ rows, Build.structStreamsAlternate x = true)
     (hnar : (∀ x ∈ rows, Build.noRaw x = true) ∨ Build.narrowRoot fields = true)
     (hu : ∃ (i : Nat) (hi : i < rows.length) (e : Fail), interpRow ext fields rows[i] = .error e) :
